@@ -51,9 +51,15 @@ func HarnessC16() {
 	}
 	req := vrtStr("requestedBinding")
 
+	// the registered list as it stands in the metadata (document order); the function must
+	// select from it whatever it was asked before
+	registered := append([]md.IndexedEndpointType{}, acs...)
+	if vrtBool("hist.call") {
+		GetAcsUrlAndBindingForResponse(acs, vrtStr("hist.requestedBinding"))
+	}
 	url, binding := GetAcsUrlAndBindingForResponse(acs, req)
 
-	vrtC16Oracle("C16", acs, idx, req, url, binding)
+	vrtC16Oracle("C16", registered, idx, req, url, binding)
 }
 
 // vrtC16Oracle asserts that (url, binding) is the entry the statement names.
